@@ -307,7 +307,39 @@ func (n *quotedString) Text() string {
 
 // String returns the SQL/JSON path-encoded quoted string.
 func (n *quotedString) String() string {
-	return strconv.Quote(n.str)
+	return quote(n.str)
+}
+
+// quote returns str as a double-quoted SQL/JSON path string. It is
+// [strconv.Quote] except that the escapes \a and \UNNNNNNNN, which path
+// strings do not have, are written as \u0007 and \u{N...}.
+func quote(str string) string {
+	quoted := strconv.Quote(str)
+	if !strings.Contains(quoted, `\a`) && !strings.Contains(quoted, `\U`) {
+		return quoted
+	}
+
+	buf := new(strings.Builder)
+	for i := 0; i < len(quoted); i++ {
+		if quoted[i] != '\\' || i+1 >= len(quoted) {
+			buf.WriteByte(quoted[i])
+			continue
+		}
+
+		const uSize = 8
+		switch {
+		case quoted[i+1] == 'a':
+			buf.WriteString(`\u0007`)
+			i++
+		case quoted[i+1] == 'U' && i+1+uSize < len(quoted):
+			buf.WriteString(`\u{` + strings.TrimLeft(quoted[i+2:i+2+uSize], "0") + "}")
+			i += 1 + uSize
+		default:
+			buf.WriteString(quoted[i : i+2])
+			i++
+		}
+	}
+	return buf.String()
 }
 
 // writeTo writes n.String to buf.
@@ -874,7 +906,7 @@ func (n *RegexNode) writeTo(buf *strings.Builder, _, withParens bool) {
 	}
 
 	n.operand.writeTo(buf, false, n.operand.priority() <= n.priority())
-	fmt.Fprintf(buf, " like_regex %q%v", n.pattern, n.flags)
+	fmt.Fprintf(buf, " like_regex %v%v", quote(n.pattern), n.flags)
 
 	if withParens {
 		buf.WriteRune(')')
